@@ -152,8 +152,11 @@ func (s *Server) Session(strm signaling.SRPCSignaling_SessionStream) error {
 	}
 
 	sess.seqno++
-	sess.broadcast()
+	// Take the wait channel before the broadcast: it is closed right away, so
+	// our write loop runs once and announces the current state to the local peer
+	// even if nothing else changes after we registered.
 	waitCh := sess.getWaitCh()
+	sess.broadcast()
 
 	s.mtx.Unlock()
 
